@@ -14,6 +14,10 @@ def gen(rng, n):
     hs = []
     # systematic: each failure stage in a pool of each size, then recovery; cancellation at each point of an attempt sequence
     for size in (1, 2, 3):
+        # shutdown landing while a connection is being established: the attempt still yields a live connection
+        for late in ("2 1 1", "2 0 1", "2 1 0"):
+            hs.append(["N %d" % size] + ["A 1 1 1"] * (size - 1) + ["A " + late, "E"])
+            hs.append(["N %d" % size, "A " + late, "A 1 1 1", "E"])
         for bad in ("0 1 1", "1 0 1", "1 1 0", "1 1 2", "1 1 3"):
             hs.append(["N %d" % size, "A " + bad] + ["A 1 1 1"] * size + ["K r"] + ["A 1 1 1", "E"])
         seq = ["A 1 1 1", "A 0 1 1", "A 1 1 1", "K l", "A 1 0 1", "A 1 1 1"]
@@ -34,8 +38,10 @@ def gen(rng, n):
                         h.append("A %d %d %d" % (rng.below(2), rng.below(2), rng.choice([0, 1, 2])))
             elif r < 85:
                 h.append("K " + rng.choice(["r", "l"]))
-            elif r < 92:
+            elif r < 89:
                 h.append("X")
+            elif r < 92:
+                h.append("A 2 %d %d" % (rng.below(2), rng.below(2)))
             else:
                 h.append("A 1 1 1")
         h.append("E")
@@ -105,7 +111,7 @@ def monitor(h, lines):
         if l.startswith("PANIC"):
             bad.append(l[:300])
     # healing: a scenario without cancellation whose tail offers enough good attempts ends at full strength
-    if "X" not in h and st:
+    if "X" not in h and not any(e.startswith("A 2") for e in h) and st:
         tail_good = 0
         for e in reversed(h[:-1]):
             if e == "A 1 1 1":
